@@ -2,8 +2,11 @@
 import itertools
 import math
 import struct
+import logging
 import numpy as np
 from .. import core
+
+logging.disable(logging.CRITICAL)      # the package logs an ERROR before re-raising EncodingError for non-DNA text
 from ..core import SKIP
 
 ID = "C13"
